@@ -61,7 +61,7 @@ def ser : Ty → Val → Tr
   | .raw _, .blob bs => Tr.emit bs                                -- one `write_all` of the octets
   | .seq k t, .list vs =>
     if k.serChecksZst && memZero t then Tr.fail eZst
-    else if k == .indexSet || k == .linkedList then
+    else if k.noFastPath then
       serLen vs.length ▹ serMany (ser t) vs                   -- iterator loops: no fast path
     else
       serLen vs.length ▹ (if t.isU8 then Tr.emit (valBytes vs) else serMany (ser t) vs)
